@@ -326,7 +326,12 @@ func applyC(fs hackpadfs.FS, hs *[]hackpadfs.File, o cOp) string {
 			names = append(names, fmt.Sprintf("%s:%v", e.Name(), e.IsDir()))
 		}
 		if o.n > 0 {
+			c10Paged[f] = true
 			return fmt.Sprintf("page %d eof=%v", len(names), err == io.EOF) // page order is the source's
+		}
+		if c10Paged[f] {
+			// "the rest" after some pages: which entries remain depends on the (unspecified) page order
+			return fmt.Sprintf("rest %d", len(names))
 		}
 		sort.Strings(names)
 		return "entries " + strings.Join(names, ",")
@@ -388,6 +393,9 @@ func genAccess(r *Rng, es []srcEntry) []cOp {
 	}
 	return ops
 }
+
+// handles on which a positive-count page has been read
+var c10Paged = map[hackpadfs.File]bool{}
 
 func runC10(r *Rng, n int, replay string) {
 	for id := 0; id < n; id++ {
